@@ -554,6 +554,8 @@ def _hashable_json(v) -> bool:
     if v[0] == "a":
         return True
     if v[0] == "s":
+        if v[1] == "dict_values":  # hashes by identity
+            return True
         return v[1] in ("tuple", "frozenset", "range") and all(_hashable_json(x) for x in v[2])
     return False
 
